@@ -351,8 +351,13 @@ def r5(ctx, rep):
     # ... the Append|Join arm may touch them only to isolate its argument: moved out before the argument is folded, put back after it
     import C03
     iso = C03.join_append_isolation(fl)
-    for fld in ("partition", "window"):
+    for fld in ("partition", "window", "sort"):
         saved, emptied, restored = iso.get(fld, (False, False, False))
+        if fld == "sort":
+            # the ORDER BY of every window function after the join is the Flattener's remembered sort
+            rep.check(saved and emptied and restored, "flatten:join-append-isolated:sort", "the order in effect before a join / append is the ORDER BY of the window functions that follow it: `self.sort` must be moved out "
+                      "before the argument is folded and put back afterwards (`sort {-x} | join u (==id) | derive {rn = row_number this}` must keep `OVER (ORDER BY x DESC)`)", file=fl["file"], line=fl["l"], fn=fl["path"])
+            continue
         rep.check(saved and emptied and restored, f"flatten:join-append-isolated:{fld}", f"the argument of a join / append is a pipeline of its own: `self.{fld}` must be moved out before it is folded and put back "
                   "afterwards, otherwise a `take` / aggregate inside the argument is partitioned by (framed like) the enclosing group / window of the OUTER pipeline "
                   "(`from a | group g (append (from b | sort x | take 3))` gave `ROW_NUMBER() OVER (PARTITION BY g ORDER BY x)` over b)", file=fl["file"], line=fl["l"], fn=fl["path"])
